@@ -81,8 +81,8 @@ class FabolasKernelFunction(KernelFunction):
 
     def forward(self, X1, X2):
         u1_internal = self.u1_internal.data()
-        u2_internal = self.u1_internal.data()
-        u3_internal = self.u1_internal.data()
+        u2_internal = self.u2_internal.data()
+        u3_internal = self.u3_internal.data()
         X1 = self._check_input_shape(X1)
         u1 = self.encoding_u12.get(u1_internal)
         u2 = self.encoding_u12.get(u2_internal)
